@@ -42,8 +42,11 @@ line the thread was parked at when chosen, `kind` says what the step did:
 
     "run"     executed that line up to the next line event (or to the end of the thread)
     "block"   tried to take a SchedRLock held by another thread; no progress
-    "wait"    entered SchedCondition.wait (lock released)
-    "timeout" was chosen while waiting un-notified on a timed wait: the wait times out
+    "wait"    entered SchedCondition.wait (lock released) during that line
+    "wake"    was waiting and had been notified: leaves the wait, re-takes the lock and runs
+              to the next line event
+    "timeout" was waiting un-notified on a timed wait: the wait times out now; then as "wake"
+    "wake+block" / "timeout+block"   as above but the lock was busy: now blocked on it
     "gblock"  did not report within `grace` (generic blocked detection)
 
 `Result.choices` is the bare list of thread ids; feeding it back as `schedule=` replays
@@ -56,6 +59,7 @@ Small API
     explore(factory, files, preemptions=2, limit=None, **opts) -> iterator of Result
     random_runs(factory, files, n, rng, **opts)            -> iterator of Result
     op_begin()                 inside a body: start of an operation (resets the step budget)
+    current_tid()              inside a body: the scheduler's id of the calling thread
     op_steps()                 inside a body: line events of the current operation so far
     SchedRLock, SchedCondition, instrumented_threading()
     BudgetExhausted            BaseException raised in a thread whose operation exceeded the budget
@@ -69,7 +73,7 @@ import sys
 import threading
 from contextlib import contextmanager
 
-__all__ = ["run", "explore", "random_runs", "op_begin", "op_steps", "SchedRLock",
+__all__ = ["run", "explore", "random_runs", "op_begin", "op_steps", "current_tid", "SchedRLock",
            "SchedCondition", "instrumented_threading", "BudgetExhausted", "Result", "Event"]
 
 _real_RLock = threading.RLock
@@ -231,6 +235,8 @@ class _Run:
             self.cv.notify_all()
 
     def _park(self, th, status="parked"):
+        if self.aborting:            # unwinding after teardown: never park again
+            raise _Abort()
         self._report(th, status)
         th.go.acquire()
         if self.aborting:
@@ -241,6 +247,8 @@ class _Run:
 
         def local(frame, event, arg):
             if event == "line":
+                if self.aborting:
+                    return None
                 th.steps += 1
                 th.op_steps += 1
                 if th.op_steps > self.step_budget:
@@ -338,9 +346,12 @@ class _Run:
             th = self.th[tid]
             loc, func = th.loc, th.func
             kind = "run"
-            if th.status == "waiting" and not th.notified:
-                th.timed_out = True
-                kind = "timeout"
+            was_waiting = th.status == "waiting"
+            if was_waiting:
+                kind = "wake"
+                if not th.notified:
+                    th.timed_out = True
+                    kind = "timeout"
             th.status = "running"
             th.yielded = False
             th.go.release()
@@ -353,10 +364,10 @@ class _Run:
                         th.yielded = True
                         kind = "gblock"
             elif th.status == "blocked":
-                kind = "block"
+                kind = kind + "+block" if was_waiting else "block"
                 th.yielded = True
             elif th.status == "waiting":
-                kind = "wait" if kind == "run" else kind
+                kind = kind + "+wait" if was_waiting else "wait"
                 th.yielded = True
             res.trace.append(Event(tid, loc, kind, func))
             res.choices.append(tid)
@@ -525,6 +536,11 @@ def op_begin():
         th.op_steps = 0
         if sys.gettrace() is None:
             sys.settrace(_tls.tracer)
+
+
+def current_tid():
+    """Thread id (0..n-1) of the calling scheduled thread, None outside a run."""
+    return getattr(_tls, "tid", None) if getattr(_tls, "run", None) is not None else None
 
 
 def op_steps():
